@@ -905,6 +905,23 @@ func runCase(c *kit.Case) {
 			evMu.Lock()
 			trackWins = append(trackWins, window{start, w.Seq()})
 			evMu.Unlock()
+		case "keyed.beforeEnqueue":
+			// between the unlocked first look at the key state (encoding, batch config callback)
+			// and the locked re-check + enqueue; no lock is held here
+			if cfg.FanoutSleep && cfg.PublishEnabled {
+				// deliveries that come through the memory broker run under its per-channel
+				// publish lock: yield there, never sleep (a mutex wait freezes the bubble)
+				kit.Yield(int(hashDelay(salt, point, hookN.Add(1), 40) / time.Millisecond))
+			} else if cfg.FanoutSleep {
+				n := hookN.Add(1)
+				if d := hashDelay(salt, point, n, 9); d > 3*time.Millisecond {
+					start := w.Seq()
+					time.Sleep(d - 3*time.Millisecond)
+					evMu.Lock()
+					fanoutWins = append(fanoutWins, window{start, w.Seq()})
+					evMu.Unlock()
+				}
+			}
 		case "sharedpoll.beforeFanout":
 			// no lock is held at this call site (the channel state lock was released
 			// before the publications were built), only a slot of the call semaphore
@@ -1425,7 +1442,7 @@ func TestC25(t *testing.T) {
 		Bubble: true,
 		Rule: "each case = one virtual-time bubble with one shared-poll channel (versioned 3/5 or versionless; KeepLatestData on/off; refresh interval 30-400 ms, batch size 1/2/1000, notification batching none/delay/size, channel shutdown delay immediate/100 ms/1 s/1 h; PublishEnabled via the memory broker 1/3) and 2-5 keys. " +
 			"A scripted backend is the source of truth per key (version, bytes = near-identical JSON documents carrying a unique write id): 1-2 writers advance it every 0-25 virtual ms (occasional 0.2-0.9 s pauses) silently, with SharedPollNotify, or (versioned) with SharedPollPublish(version, epoch, data), sometimes delayed so that publishes arrive out of order; OnSharedPoll answers from it after a 0-20 ms virtual delay (versionless: data only; versioned: optionally skipping unchanged items and optionally with PrevData = the value of the version the request carried; in half of the cases 1 poll in 6 is overtaken by a publish of a requested key followed by one more backend write before it answers). 0-2 revocations through SharedPollManager.SharedPollRevokeKeys (all users / users / exclude users); in 1/3 of versioned cases the publisher uses epochs and restarts 0-2 times (new epoch, versions restart), announced by a publish or discovered by the next poll. " +
-			"2-4 connections (JSON/Protobuf, fossil delta requested by 2/3, sync or async OnTrack) subscribe with type 4, then run 4-14 PRNG-scheduled commands: track random key sets claiming the version they hold (or 0), untrack, unsubscribe+resubscribe, close; they resubscribe after a server-side unsubscribe. Yield points: track.afterReply sleeps 0-12 ms and/or fires a targeted publish / write+notify / revoke / epoch restart for a key being tracked; sharedpoll.beforeFanout sleeps 0-8 ms (no lock is held at either site). " +
+			"2-4 connections (JSON/Protobuf, fossil delta requested by 2/3, sync or async OnTrack) subscribe with type 4, then run 4-14 PRNG-scheduled commands: track random key sets claiming the version they hold (or 0), untrack, unsubscribe+resubscribe, close; they resubscribe after a server-side unsubscribe. Yield points: track.afterReply sleeps 0-12 ms and/or fires a targeted publish / write+notify / revoke / epoch restart for a key being tracked; sharedpoll.beforeFanout sleeps 0-8 ms and keyed.beforeEnqueue (between a keyed push's unlocked first check and its locked re-check) 0-6 ms in the same cases (no lock is held at any of the sites). " +
 			"Monitor per (connection, key) over the recorded frames: versions strictly increase from the claimed version of the track; a delta applies (fossil) to the held bytes and every reconstructed value is byte-identical to the backend write whose id it carries, with that write's version; nothing for a key after the untrack reply, the removal push of a revocation, an unsubscribe reply/push (close: the transport accepts nothing); after traffic stops + 4 refresh intervals every key tracked by a live subscription (client model and server bookkeeping agree) holds the newest backend value; every subscription current when a new publisher epoch is first handed to the server ends with an unsubscribe push code 2500. Signature = configuration x per connection (protocol, delta, #delta/#full/#cached buckets) x (#revocations, #epoch changes).",
 		Assumptions: []string{
 			"fossil-delta.Apply from the module the repository depends on is trusted; JSON transports carry delta-negotiated data as JSON strings and backend values are JSON objects",
